@@ -40,7 +40,7 @@ func hostileFrame(c *RawConn, inflight []uint32, service string) (out []byte, de
 		frs := wire.EncCall(spec)
 		return frs[0]
 	}
-	switch k := scn(16); k {
+	switch k := scn(18); k {
 	case 0:
 		n := 1 + scn(200)
 		b := make([]byte, n)
@@ -156,6 +156,19 @@ func hostileFrame(c *RawConn, inflight []uint32, service string) (out []byte, de
 			binary.BigEndian.PutUint32(f[wire.HeaderSize+1:], []uint32{0, 0xffffffff}[scn(2)])
 			return f, "call req with ttl at a limit"
 		}
+	case 16, 17:
+		// a call response for an id in flight, cut inside or right after its fixed part
+		// (flags, code, span, header count, checksum type), as the last frame of the response
+		id := pickID()
+		if len(inflight) > 0 {
+			id = inflight[scn(len(inflight))]
+		}
+		frs := wire.EncCall(wire.CallSpec{Type: wire.TCallRes, ID: id, CsumType: byte(scn(3)), Headers: []wire.KV{{K: "as", V: "raw"}}, Args: [3][]byte{nil, []byte("r;x\n"), payload("h", 13, scn(200))}})
+		f := frs[0]
+		cut := wire.HeaderSize + scn(min(len(f)-wire.HeaderSize, 45))
+		f = append([]byte(nil), f[:cut]...)
+		binary.BigEndian.PutUint16(f, uint16(len(f)))
+		return f, fmt.Sprintf("call res for id %d truncated to %d payload bytes", id, cut-wire.HeaderSize)
 	case 14:
 		// a complete, valid small call (keeps legitimate state around the hostile frames)
 		return validReq(false, []byte{wire.CsumNone, wire.CsumCRC32, wire.CsumCRC32C}[scn(3)]), "valid call req"
@@ -178,8 +191,11 @@ func famHostile(w *World) {
 	srv.Ch.Register(&echoHandler{w: w, n: srv}, "echo")
 	target := srv
 	withRelay := scnChance(1, 3)
+	var relaySpy *SpyRelayHost
+	calleeBehindRelay := false
 	if withRelay {
 		spy := &SpyRelayHost{w: w, name: "r0", IterCheck: scnChance(1, 2)}
+		relaySpy = spy
 		rn := w.addNode(NodeOpts{Name: "r0", Service: "relay", Host: "10.0.1.1", Port: 4500, Conn: w.connOptsBig(), Relay: spy})
 		spy.Add(srv.Service, srv.HostPort)
 		target = rn
@@ -285,9 +301,17 @@ func famHostile(w *World) {
 			}
 		})
 		x := w.addNode(NodeOpts{Name: "x0", Service: "clientx", Host: "10.0.3.9", Conn: w.connOptsBig()})
+		to := hp
+		if withRelay && scnChance(1, 2) {
+			// the hostile server is a callee behind the relay
+			relaySpy.Add("x", hp)
+			to = target.HostPort
+			calleeBehindRelay = true
+			w.Net.Fired["peer.hostile-callee-behind-relay"]++
+		}
 		fs = append(fs, func() {
 			for k := 0; k < 1+scn(3); k++ {
-				r := w.newCall(CallSpec{From: x, To: hp, Service: "x", Via: "to-raw-server", Timeout: time.Duration(50+scn(500)) * w.Grid, Len3: scn(2000), Rs2: -1, Rs3: -1, NoCheck: true})
+				r := w.newCall(CallSpec{From: x, To: to, Service: "x", Via: "to-raw-server", Timeout: time.Duration(50+scn(500)) * w.Grid, Len3: scn(2000), Rs2: -1, Rs3: -1, NoCheck: true})
 				w.Call(r)
 			}
 		})
@@ -324,6 +348,23 @@ func famHostile(w *World) {
 	// a directly connected server), and what it started through a relay is
 	// bounded by the relay's maximum timeout (2m by default) plus the tombstone
 	// period
+	for _, rp := range w.RawPeers {
+		if rp.L == nil {
+			rp.CloseAll()
+		}
+	}
+	if calleeBehindRelay {
+		// the hostile CALLEE stays connected: every call routed to it was started by a real
+		// client with a bounded ttl, so whatever it answered (or not), the relay must have
+		// forgotten those calls by now without the connection going away
+		w.QuiesceStarted = true
+		for _, l := range w.Net.Links {
+			l.Heal()
+		}
+		w.settle(3 * time.Minute)
+		w.event("quiesce", "with the hostile callee still connected")
+		w.checkQuiescent()
+	}
 	for _, rp := range w.RawPeers {
 		rp.CloseAll()
 	}
